@@ -38,7 +38,10 @@ type khCase struct {
 	// again through the same callback object; Answers2 is typed only then
 	Recontact bool   `json:"recontact"`
 	Answers2  string `json:"answers2"`
-	Contacts  []struct {
+	// the client is shut down (its context cancelled) this long after the contacts were made - inside the
+	// window in which unknown hosts are still being collected for the prompt
+	CancelAfterMs int `json:"cancel_after_ms"`
+	Contacts      []struct {
 		Server string `json:"server"` // "host:port" as dialled
 		Remote string `json:"remote"` // "ip:port"
 		Key    int    `json:"key"`
@@ -156,6 +159,9 @@ func init() {
 			}
 			wg.Wait()
 			return results
+		}
+		if c.CancelAfterMs > 0 {
+			go func() { time.Sleep(time.Duration(c.CancelAfterMs) * time.Millisecond); cancel() }()
 		}
 		results := round()
 		var results2 []string
